@@ -739,8 +739,36 @@ func findFrameTransfer(p *Program) *ssa.Function {
 	if n == nil {
 		return nil
 	}
-	for _, e := range n.In {
-		caller := e.Caller.Func
+	// the predicate may be wrapped by boolean helpers (isBlendingPossible(...) choosing between the
+	// lossless and the lossy predicate): the blend decision is then taken by the wrapper's caller
+	type lvl struct {
+		via    *ssa.Function // the function whose calls mark the blend decision
+		caller *ssa.Function
+	}
+	var work []lvl
+	seenLvl := map[[2]*ssa.Function]bool{}
+	var addCallers func(via *ssa.Function, depth int)
+	addCallers = func(via *ssa.Function, depth int) {
+		nn := p.CallGraph().Nodes[via]
+		if nn == nil || depth > 3 {
+			return
+		}
+		for _, e := range nn.In {
+			cf := e.Caller.Func
+			k := [2]*ssa.Function{via, cf}
+			if seenLvl[k] {
+				continue
+			}
+			seenLvl[k] = true
+			work = append(work, lvl{via, cf})
+			if cf.Signature.Results().Len() == 1 && shortType(cf.Signature.Results().At(0).Type()) == "bool" {
+				addCallers(cf, depth+1)
+			}
+		}
+	}
+	addCallers(pred, 0)
+	for _, lv := range work {
+		caller := lv.caller
 		counts := map[*ssa.Function]int{}
 		npred := 0
 		for _, b := range caller.Blocks {
@@ -750,7 +778,7 @@ func findFrameTransfer(p *Program) *ssa.Function {
 					continue
 				}
 				callee := call.Call.StaticCallee()
-				if callee == pred {
+				if callee == lv.via {
 					npred++
 				}
 				if callee == nil || callee.Blocks == nil || callee.Signature.Results().Len() != 0 || len(callee.Params) != 3 {
